@@ -19,6 +19,20 @@ PROPS = {
         explanation="Theorems: cleanEdges specification and normal form; every editing/extraction operation maps well-formed lists to well-formed lists (induction over arbitrary operation sequences); merge/remove/extract results normalised; RemoveNodes exactness. Tie: one-step refinement of the real NodeList against Model/Graph.v on random histories.",
         assumptions=[GRAPH_NOTE],
     ),
+    "C09": dict(
+        props_v="Props/C09.v",
+        corr_v=["Corr/CheckC08.v"],
+        n_quick=110, n_thorough=3000,
+        explanation="Theorems (all operands, ill-formed included): exact characterisation of nodes, roots and edges of Union and Add; idempotence, commutativity, identity on (nodes, roots, edges among present nodes); associativity under edge-closedness (+ refutation witness of the unrestricted statement = known finding K2); attribute precedence for every generated schema field (Union: second wins; Add: receiver wins). Tie: Union/Add observed on random pairs/triples vs Model/Graph.v.",
+        assumptions=[GRAPH_NOTE, "attribute rule theorems quantify over operands with unique identifiers (with duplicates the code updates the last indexed node; that behaviour is in the model and in the correspondence, not in the attr theorems)"],
+    ),
+    "C10": dict(
+        props_v="Props/C10.v",
+        corr_v=["Corr/CheckC08.v"],
+        n_quick=130, n_thorough=3000,
+        explanation="Theorems (all operands): nodes = intersection; root and edge containment bounds exactly as stated; idempotence (on nodes, surviving roots, edges among present nodes), commutativity, absorption, emptiness; result always well-formed and normalised; second-operand-wins for every generated schema field. Tie: Intersect observed on random pairs vs Model/Graph.v.",
+        assumptions=[GRAPH_NOTE],
+    ),
 }
 
 NOT_APPLICABLE = {}
